@@ -379,6 +379,20 @@ def placeholders : List Param → Nat
   | .id _ :: ps => placeholders ps
   | _ :: ps => placeholders ps + 1
 
+/-- pairwise distinct -/
+def nodupB : List Name → Bool
+  | [] => true
+  | x :: xs => !xs.contains x && nodupB xs
+
+/-- all argument names of a definition, top level and unpacked -/
+def FnDef.paramNames (d : FnDef) : List Name := topNames d.params ++ nestedNames d.params
+
+/-- well-formedness of a parameter list (/repo 7adfc01, `SyntaxError::DuplicateArgumentName`): an
+argument name is used at most once, whatever the positions (top level, nested tuple, `rest...`, map
+entry or `as` rebind, variadic); `_`/`_name` are not names. The parser rejects anything else, because
+`local_count` counts distinct ids while `Frame::new` gives every occurrence its own register. -/
+def FnDef.wellFormed (d : FnDef) : Bool := nodupB d.paramNames
+
 /-- `temporary_base` of `Frame::new` (the parser's `local_count` = distinct assigned ids) -/
 def tempBase (d : FnDef) : Nat :=
   1 + ((dedup (topNames d.params ++ nestedNames d.params)).length + d.bodyLocals)
